@@ -118,20 +118,85 @@ def reader_layout(prog, body):
     return out
 
 
-def writer_layout(prog, body):
-    """list of (atom, source canonical text) for everything the serializer writes into `buffer`"""
-    pv = df.Prov(body)
-    out = []
-    sts, _ = stores(body, include_locals=False)
+def _byte_atoms(body, pv, target, only=None):
+    """(byte index, rhs text, store) for every single-byte store `target[k] = rhs` in body (target: a parameter name
+    such as `buffer`, or a local array)"""
+    sts, _ = stores(body, include_locals=(target != "buffer"))
+    res = []
     for s in sts:
         if s["macro"] or not s["stmt"].get("p"):
             continue
         lhs = df.canon(pv.place_tree(s["stmt"]["p"]), body, keep_index=True)
-        m = re.fullmatch(r"buffer\[(\d+)\]", lhs)
+        m = re.fullmatch(r"%s\[(\d+)\]" % re.escape(target), lhs)
+        if not m:
+            # a local array: the place tree of an element is phi(<initialiser>[k] | target[k])
+            m = re.fullmatch(r"phi\(.*\| %s\[(\d+)\]\)" % re.escape(target), lhs)
         if not m:
             continue
         k = int(m.group(1))
-        rhs = df.canon(s["tree"], body, keep_index=True)
+        if only is not None and k != only:
+            continue
+        res.append((k, df.canon(s["tree"], body, keep_index=True), s))
+    return res
+
+
+def _helper_array_bytes(prog, body, pv, s):
+    """`buffer[k] = H(..)[j]` where H is an in-workspace function returning a local byte array it fills element by
+    element: the stores of H into element j, re-targeted at buffer[k] (with H's `self` = the caller's).  None if the
+    store is not of that form."""
+    t = df.strip(s["tree"])
+    txt = df.canon(t, body, keep_index=True)
+    m = re.fullmatch(r"(\w+)\(self\)\.\[(\d+)\]", txt)
+    if not m:
+        return None
+    j = int(m.group(2))
+    # the call inside the tree
+    call = t
+    while call[0] in ("field", "ref", "deref") or (call[0] == "path"):
+        if call[0] == "path":
+            return None
+        call = df.strip(call[1])
+    if call[0] != "call":
+        return None
+    helper = prog.bodies.get(call[1])
+    if helper is None or helper.unit.crate != body.unit.crate or helper.argc != 1:
+        return None
+    hp = df.Prov(helper)
+    rd = df.defs(helper).whole.get(0, [])
+    if len(rd) != 1 or rd[0][2][0] != "assign" or rd[0][2][1]["k"] != "use":
+        return None
+    rp = mir.op_place(rd[0][2][1]["op"])
+    if rp is None or rp["proj"] or not helper.local_name(rp["l"]):
+        return None
+    tgt = helper.local_name(rp["l"])
+    # initial value of the array
+    init_zero = False
+    for (bi, si, dd) in df.defs(helper).whole.get(rp["l"], []):
+        if dd[0] == "assign" and dd[1]["k"] == "repeat" and mir.op_const(dd[1]["op"]) == 0:
+            init_zero = True
+    res = []
+    if init_zero:
+        res.append(("0", None))
+    for (k2, rhs, s2) in _byte_atoms(helper, hp, tgt, only=j):
+        rhs = re.sub(r"phi\(\d+\(0\)\.\[%d\] \| %s\[%d\]\)" % (j, re.escape(tgt), j), "%s[%d]" % (tgt, j), rhs)
+        res.append((rhs, s2))
+    return res, tgt
+
+
+def writer_layout(prog, body):
+    """list of (atom, source canonical text) for everything the serializer writes into `buffer`"""
+    pv = df.Prov(body)
+    out = []
+    work = []
+    for (k, rhs, s) in _byte_atoms(body, pv, "buffer"):
+        ha = _helper_array_bytes(prog, body, pv, s)
+        if ha is not None and ha[0]:
+            for (rhs2, s2) in ha[0]:
+                # the helper's element plays the role of buffer[k]
+                work.append((k, re.sub(r"\b%s\[\d+\]" % re.escape(ha[1]), "buffer[%d]" % k, rhs2)))
+        else:
+            work.append((k, rhs))
+    for (k, rhs) in work:
         if rhs == "0":
             out.append((("zero", k, 1), "0"))
             continue
